@@ -11,7 +11,7 @@ GETCOPY = fn(
     'sfc_models.equation_solver.EquationSolver._GetCopy',
     args=dict(self=Ref('EquationSolver')),
     returns=Ref('EquationSolver'),
-    modifies=['f.*', 'len', 'el.*', 'dh.*', 'dv.*', 'dk', 'tyof'],
+    modifies=['f.*', 'len.*', 'el.*', 'dh.*', 'dv.*', 'dk', 'tyof'],
     ensures=[
         ('old_heap_untouched', "heap_unchanged_except('tyof')"),
         ('copy_fresh', 'fresh(result) and fresh(result.Parser) and fresh(result.TimeSeries) and fresh(result.Parser.Exogenous)'
@@ -29,16 +29,16 @@ GETCOPY = fn(
 SOLVESTEP = fn(
     'sfc_models.equation_solver.EquationSolver.SolveStep',
     args=dict(self=Ref('EquationSolver'), step=INT),
-    modifies=['len', 'el.*', 'dh.*', 'dv.*', 'dk', 'f.EquationSolver.TimeSeriesStepTrace', 'tyof'],
+    modifies=['len.*', 'el.*', 'dh.*', 'dv.*', 'dk', 'f.EquationSolver.TimeSeriesStepTrace', 'tyof'],
     ensures=[
         # only the series lists of this solver (and, when tracing, its step-trace holder) are written
         ('other_lists_untouched', 'lists_unchanged_except_series_of(self)'),
-        ('no_trace_no_dict_change', "implies(is_none(old(self.TraceStep)), heap_unchanged_except('tyof', 'len', 'el.*'))"),
+        ('no_trace_no_dict_change', "implies(is_none(old(self.TraceStep)), heap_unchanged_except('tyof', 'len.*', 'el.*'))"),
         # C02: a period is only reported (appended) with finite values
         ('reported_values_finite', 'implies(old(all_series_finite(self.TimeSeries)), all_series_finite(self.TimeSeries))'),
     ],
     raises=[RaisesSpec('Exception', when='True', ensures=[
         ('other_lists_untouched', 'lists_unchanged_except_series_of(self)'),
-        ('no_trace_no_dict_change', "implies(is_none(old(self.TraceStep)), heap_unchanged_except('tyof', 'len', 'el.*'))"),
+        ('no_trace_no_dict_change', "implies(is_none(old(self.TraceStep)), heap_unchanged_except('tyof', 'len.*', 'el.*'))"),
     ])],
 )
